@@ -262,6 +262,12 @@ def report(a, prop, tasks, results, bres, seed, t0):
         "assumptions": prop.get("assumptions", []),
         "wall_s": round(wall, 2), "violations": nviol,
     }
+    if prop.get("scan"):
+        # library-wide syntactic scan (PROPERTY["scan"]: name of the bounded stand-in that ran it): its own evidence
+        # key, level "other" - not part of the proof obligations
+        sc = {k: v for k, v in prop["scan"].items() if k != "fn"}
+        sc["result"] = next((b.get("scan") for b in bres if b and b.get("name") == prop["scan"].get("name")), None)
+        ev["scan"] = sc
     os.makedirs(os.path.join(VERIF, "evidence"), exist_ok=True)
     json.dump(ev, open(os.path.join(VERIF, "evidence", f"{pid}.json"), "w"), indent=1, default=str)
     return exit_code
